@@ -12,6 +12,7 @@ label.  A fault plan {k: kind} decides what happens at point k:
                (a disk that is full stays full: clean-up code fails, too; rename and unlink keep working);
                err_persist_w: the same, but closing files keeps working as well
   err_burst<n> this call and the next n-1 intercepted calls fail, then the device works again
+  torn_close   the close of a writable file flushes only half of the file and fails (ENOSPC): a torn write
 """
 import errno
 import os
@@ -77,6 +78,15 @@ class FaultSeam:
             self.depth -= 1
         if kind == "kill_after":
             os._exit(137)
+        if kind == "torn_close":
+            # the flush behind close() ran out of space half-way: the call "happened", half of the file is on disk and the
+            # error is reported (for calls other than the close of a writable file this is err_after)
+            self.fired.append((k, kind, label))
+            pth = getattr(self, "_last_close_path", None)
+            if label.startswith("file.close[") and not label.startswith("file.close[r]") and pth and os.path.exists(pth):
+                with open(pth, "r+b") as fh:
+                    fh.truncate(max(1, os.path.getsize(pth) // 2))
+            raise InjectedIOError(errno.ENOSPC, f"injected fault: torn {label}")
         if kind == "err_after":
             self.fired.append((k, kind, label))
             raise InjectedIOError(ERRNOS[self.errno_pick % len(ERRNOS)], f"injected fault after {label}")
@@ -171,6 +181,7 @@ class FaultSeam:
         try:
             if not s.id.valid:
                 return "file.close (already closed)"
+            self._last_close_path = s.filename
             return f"file.close[{s.mode}] {os.path.basename(s.filename)}"
         except Exception:
             return "file.close ?"
